@@ -1,0 +1,10 @@
+//go:build verif
+
+// Verification hook (add-only, compiled only with -tags verif): read access to an item's priority.
+
+package priority_queue
+
+// VerifPriority returns the priority the item currently has in its queue.
+func (it *Item[V, P]) VerifPriority() P {
+	return it.priority
+}
